@@ -256,5 +256,5 @@ func TestVerif_C13(t *testing.T) {
 		maxLen = 4
 	}
 	verifkit.Enumerate(k, t, fmt.Sprintf("pool-sequences<=%d", maxLen), true, c13Seqs(maxLen), prop)
-	verifkit.Rapid(k, t, "random-lists", k.N(4000, 200000), c13Gen, prop)
+	verifkit.Rapid(k, t, "random-lists", k.N(4000, 1000000), c13Gen, prop)
 }
